@@ -390,6 +390,9 @@ func ConstFloat(v ssa.Value) (float64, bool) {
 type Edge struct {
 	From *ssa.BasicBlock
 	Idx  int
+	// Via, when set, restricts the edge to arrivals at From from this predecessor: an If on a phi of conditions
+	// (`a && b` evaluated as a value) takes, for an arrival from the block that computed b, the outcome of b.
+	Via *ssa.BasicBlock
 }
 
 // deadEdge reports whether successor i of b can never be taken because b ends in an If on a
@@ -605,7 +608,7 @@ func onceOnly(b *ssa.BasicBlock) bool {
 // step returns the state reached by taking successor i of st.b, or ok=false if the edge is cut,
 // dead, threaded away, or contradicts an earlier decision on the same pure condition.
 func step(st bstate, i int, cut map[Edge]bool) (bstate, bool) {
-	if cut[Edge{st.b, i}] || !viable(st.b, i, st.pred) {
+	if cut[Edge{From: st.b, Idx: i}] || (st.pred != nil && cut[Edge{From: st.b, Idx: i, Via: st.pred}]) || !viable(st.b, i, st.pred) {
 		return bstate{}, false
 	}
 	dec := st.dec
@@ -726,6 +729,35 @@ func GuardEdges(fn *ssa.Function, atom Atom) (pass map[Edge]bool, ifs []*ssa.If)
 		if !ok {
 			continue
 		}
+		// an If on a phi of conditions: per non-constant incoming condition, the outcome for an arrival from that
+		// predecessor is the outcome of that condition
+		if base, neg := StripNot(ifi.Cond); true {
+			if ph, isPhi := base.(*ssa.Phi); isPhi && ph.Block() == b {
+				for k, e := range ph.Edges {
+					if _, isC := e.(*ssa.Const); isC || k >= len(b.Preds) {
+						continue
+					}
+					dup := false
+					for k2, q := range b.Preds {
+						if q == b.Preds[k] && k2 != k {
+							dup = true
+						}
+					}
+					if dup {
+						continue
+					}
+					m, onTrue := matchWithVariants(atom, e)
+					if m {
+						idx := 1
+						if onTrue != neg {
+							idx = 0
+						}
+						pass[Edge{From: b, Idx: idx, Via: b.Preds[k]}] = true
+						ifs = append(ifs, ifi)
+					}
+				}
+			}
+		}
 		m, onTrue := atom(ifi.Cond)
 		if !m {
 			// the same test written the other way round: complemented operator (pass edge exchanged) and/or
@@ -739,14 +771,27 @@ func GuardEdges(fn *ssa.Function, atom Atom) (pass map[Edge]bool, ifs []*ssa.If)
 		}
 		if m {
 			if onTrue {
-				pass[Edge{b, 0}] = true
+				pass[Edge{From: b, Idx: 0}] = true
 			} else {
-				pass[Edge{b, 1}] = true
+				pass[Edge{From: b, Idx: 1}] = true
 			}
 			ifs = append(ifs, ifi)
 		}
 	}
 	return
+}
+
+// matchWithVariants applies atom to cond and, failing that, to its equivalent spellings.
+func matchWithVariants(atom Atom, cond ssa.Value) (bool, bool) {
+	if m, onTrue := atom(cond); m {
+		return true, onTrue
+	}
+	for _, v := range condVariants(cond) {
+		if m2, onTrue2 := atom(v.cond); m2 {
+			return true, onTrue2 != v.complemented
+		}
+	}
+	return false, false
 }
 
 type condVariant struct {
@@ -902,7 +947,7 @@ func DominatesLive(d, b *ssa.BasicBlock) bool {
 	for _, pr := range d.Preds {
 		for i, s := range pr.Succs {
 			if s == d {
-				cut[Edge{pr, i}] = true
+				cut[Edge{From: pr, Idx: i}] = true
 			}
 		}
 	}
@@ -1162,7 +1207,7 @@ func MustPassUse(fn *ssa.Function, u Use, atom Atom) (ok bool, nGuards int, path
 		}
 		for i, s := range pr.Succs {
 			if s == u.At {
-				cut[Edge{pr, i}] = true
+				cut[Edge{From: pr, Idx: i}] = true
 			}
 		}
 	}
@@ -1308,7 +1353,6 @@ func capturedAndStored(a *ssa.Alloc) bool {
 	}
 	return false
 }
-
 
 // LocalFieldKey / LocalFieldAddrKey identify a field of a local struct variable that is only used through its fields
 // (exported for rules that treat such a field like a local variable).
